@@ -22,6 +22,21 @@ def const_rem(a, b):
     return math.fmod(a, b)
 
 
+def const_shl(a, b):
+    """Shift a constant to the left: multiply with a power of two."""
+    if b < 0:
+        raise ValueError("negative shift count")
+    # Values have at most 64 bits:
+    return a << min(b, 64)
+
+
+def const_shr(a, b):
+    """Shift a constant to the right, the sign is kept."""
+    if b < 0:
+        raise ValueError("negative shift count")
+    return a >> min(b, 64)
+
+
 class Context:
     """A context is the space where all modules live in.
 
@@ -131,11 +146,51 @@ class Context:
                 "/": const_div,
                 "*": operator.mul,
                 "%": const_rem,
+                "<<": const_shl,
+                ">>": const_shr,
+                "&": operator.and_,
+                "|": operator.or_,
+                "^": operator.xor,
+                "==": operator.eq,
+                "!=": operator.ne,
+                "<": operator.lt,
+                ">": operator.gt,
+                "<=": operator.le,
+                ">=": operator.ge,
+                "and": lambda x, y: bool(x) and bool(y),
+                "or": lambda x, y: bool(x) or bool(y),
             }
-            value = ops[expr.op](a, b)
-            if hasattr(expr, "typ"):
+            numeric = (int, float)
+            if not (isinstance(a, numeric) and isinstance(b, numeric)):
+                raise SemanticError(
+                    f"Cannot evaluate constant {expr}", expr.loc
+                )
+            try:
+                value = ops[expr.op](a, b)
+            except (TypeError, ValueError):
+                raise SemanticError(
+                    f"Cannot evaluate '{expr.op}' on {a} and {b}", expr.loc
+                )
+            if expr.is_bool:
+                value = int(value)
+            elif hasattr(expr, "typ"):
                 # The operation is done in the type of the expression:
                 value = self._fit(value, expr.typ, expr.loc)
+            return value
+        elif isinstance(expr, ast.Unop) and expr.op in ("+", "-", "not"):
+            a = self.eval_const(expr.a)
+            if not isinstance(a, (int, float)):
+                raise SemanticError(
+                    f"Cannot evaluate constant {expr}", expr.loc
+                )
+            if expr.op == "not":
+                value = int(not a)
+            elif expr.op == "-":
+                value = -a
+                if hasattr(expr, "typ"):
+                    value = self._fit(value, expr.typ, expr.loc)
+            else:
+                value = a
             return value
         elif isinstance(expr, ast.TypeCast):
             a = self.eval_const(expr.a)
